@@ -35,6 +35,8 @@ type Program struct {
 	NumFuncs int
 	// Renames: identifiers of the tree that are analysed under the name the rules know them by (package canon)
 	Renames []canon.Rename
+	// Normalised: loops analysed in their long spelling (package canon, NormalizeLoops)
+	Normalised []string
 	// RawPkgs: the module packages as loaded, before SSA (for `ivgsa snapshot`)
 	RawPkgs []*packages.Package
 }
@@ -110,17 +112,41 @@ func Load(dir, arch string) (*Program, error) {
 	// written): analyse an alpha-renamed copy held in memory. If that copy does not type-check the tree is analysed
 	// as it is.
 	var renames []canon.Rename
-	if snap, serr := canon.Embedded(); serr == nil && os.Getenv("IVGSA_NO_CANON") == "" {
-		if overlay, rs := canon.Plan(snap, inMod(pkgs), relOf); len(overlay) > 0 {
-			cfg.Overlay = overlay
+	var normNotes []string
+	if os.Getenv("IVGSA_NO_CANON") == "" {
+		overlay := map[string][]byte{}
+		// stage 1: loop spellings
+		if ov, notes := canon.NormalizeLoops(inMod(pkgs), nil); len(ov) > 0 {
+			cfg.Overlay = ov
 			if p2, err2 := loadAll(); err2 == nil {
-				pkgs, renames = p2, rs
+				pkgs, normNotes, overlay = p2, notes, ov
 			} else {
 				cfg.Overlay = nil
-				if p3, err3 := loadAll(); err3 == nil {
-					pkgs = p3
+			}
+		}
+		// stage 2: names
+		if snap, serr := canon.Embedded(); serr == nil {
+			if ov, rs := canon.Plan(snap, inMod(pkgs), relOf, overlay); len(ov) > 0 {
+				merged := map[string][]byte{}
+				for k, v := range overlay {
+					merged[k] = v
+				}
+				for k, v := range ov {
+					merged[k] = v
+				}
+				cfg.Overlay = merged
+				if p2, err2 := loadAll(); err2 == nil {
+					pkgs, renames = p2, rs
 				} else {
-					return nil, err3
+					cfg.Overlay = overlay
+					if len(overlay) == 0 {
+						cfg.Overlay = nil
+					}
+					p3, err3 := loadAll()
+					if err3 != nil {
+						return nil, err3
+					}
+					pkgs = p3
 				}
 			}
 		}
@@ -129,7 +155,7 @@ func Load(dir, arch string) (*Program, error) {
 	prog.Build()
 
 	p := &Program{Dir: dir, Arch: arch, Fset: prog.Fset, SSA: prog,
-		ByRel: map[string]*ssa.Package{}, Types: map[string]*packages.Package{}, Renames: renames, RawPkgs: inMod(pkgs)}
+		ByRel: map[string]*ssa.Package{}, Types: map[string]*packages.Package{}, Renames: renames, Normalised: normNotes, RawPkgs: inMod(pkgs)}
 	for _, pk := range pkgs {
 		if pk.PkgPath != ModulePath && !strings.HasPrefix(pk.PkgPath, ModulePath+"/") {
 			continue
